@@ -521,6 +521,27 @@ func (fr *frame) slice(x *ssa.Slice, st *State, reach string) {
 	ft := fr.ft
 	g := ft.g
 	base := fr.val(x.X)
+	if al, ok := x.X.(*ssa.Alloc); ok && al.Comment == "makeslice" {
+		// make([]T, constant): go/ssa allocates an array and slices it; model it as a local mutable buffer
+		at := al.Type().(*types.Pointer).Elem().Underlying().(*types.Array)
+		n := at.Len()
+		if x.High != nil {
+			if c, ok := x.High.(*ssa.Const); ok {
+				n = c.Int64()
+			}
+		}
+		ss := g.reg.SortOf(x.Type())
+		if g.reg.seqs[ss] != nil {
+			ref := fr.newRef(st)
+			hs := "(Array Int " + ss + ")"
+			h := ft.stateGet(st, "B|"+ss, hs)
+			nh := ft.fresh("B", hs)
+			ft.fact("(= " + nh + " (store " + h + " " + ref + " " + g.zeros(ss, fmt.Sprint(n), g.zero(at.Elem())) + "))")
+			ft.stateSet(fr, st, "B|"+ss, hs, nh)
+			fr.vals[x] = Val{Ty: x.Type(), Buf: &Buf{Ref: ref, Sort: ss, Root: x}}
+			return
+		}
+	}
 	if pt, ok := x.X.Type().Underlying().(*types.Pointer); ok {
 		// slicing a pointer to array: materialise the literal sequence
 		at := pt.Elem().Underlying().(*types.Array)
